@@ -217,6 +217,7 @@ pub fn a_11(cfg: &Cfg) -> Vec<Op> {
     let mut v = vec![
         t("a"),
         t("bcd"),
+        t("漢\u{301}"),
         c(crlf()),
         c(Ri),
         c(Decstbm(Some(1), Some(rows.saturating_sub(1).max(1)))),
